@@ -92,6 +92,16 @@ func C14(args []string) error {
 			mu.Lock()
 			v.ReqOK, v.Req = true, abs(m.Controls)
 			mu.Unlock()
+			// the handler owns what it was given: it flips the criticality of the decoded controls that have one
+			// (no other request may ever see that)
+			for _, c := range m.Controls {
+				switch x := c.(type) {
+				case *gldap.ControlManageDsaIT:
+					x.Criticality = !x.Criticality
+				case *gldap.ControlString:
+					x.Criticality = !x.Criticality
+				}
+			}
 			if cs, err := sym.buildAllReuse(pool, 1000+r.ConnectionID(), int(m.GetID()/2), v.Cs); err == nil {
 				resp.SetControls(cs...)
 			}
